@@ -1,0 +1,174 @@
+//! Simulation seam for deterministic simulation testing.
+//!
+//! Compiled only with `--cfg actix_net_verif`; without that flag none of this exists and the
+//! crate is unchanged. With the flag but nothing installed on the current thread every hook is
+//! inert, so the server still runs normally.
+
+use std::{
+    cell::{Cell, RefCell},
+    future::Future,
+    io,
+    pin::Pin,
+    rc::Rc,
+};
+
+pub use crate::accept::verif_accept::SteppedAccept;
+
+/// Instrumentation points reported to the installed [`Hooks`].
+#[derive(Debug)]
+pub enum Point {
+    /// `Accept::accept` is about to call `accept()` on the listener with this token.
+    BeforeAccept {
+        /// listener token
+        token: usize,
+    },
+
+    /// A connection was taken off the listener with this token.
+    Accepted {
+        /// listener token
+        token: usize,
+        /// peer address of the accepted stream (client side identity)
+        peer: String,
+    },
+
+    /// Top of one iteration of the dispatch loop in `Accept::accept_one`.
+    AcceptOneIter,
+
+    /// A connection was sent to the worker with this index; its counter has not been incremented
+    /// yet (the window in which the worker thread may already make progress).
+    SentBeforeInc(usize),
+
+    /// Sending to this worker failed; its handle is being removed.
+    SendFailed(usize),
+
+    /// In-thread worker construction begins / service factories are about to run.
+    WorkerStarting(usize),
+}
+
+/// A worker as a plain future (the real `ServerWorker`), to be polled by the simulator.
+pub type WorkerFuture = Pin<Box<dyn Future<Output = ()>>>;
+
+/// Implemented by the simulator.
+pub trait Hooks {
+    /// An instrumentation point was reached.
+    fn point(&self, _point: Point) {}
+
+    /// Error to return from the next `MioListener::accept` instead of accepting.
+    fn accept_fault(&self) -> Option<io::Error> {
+        None
+    }
+
+    /// Receives the accept loop instead of it being run on its own thread.
+    fn adopt_accept(&self, accept: SteppedAccept);
+
+    /// Receives a worker instead of it being run on its own thread / arbiter.
+    fn adopt_worker(&self, idx: usize, worker: WorkerFuture);
+
+    /// The server is about to join the accept thread: drive the adopted accept loop to its end.
+    fn before_accept_join(&self) {}
+}
+
+thread_local! {
+    static HOOKS: RefCell<Option<Rc<dyn Hooks>>> = const { RefCell::new(None) };
+    static STEP: Cell<u8> = const { Cell::new(0) };
+}
+
+/// Install the simulator's hooks for the current thread.
+pub fn install(hooks: Rc<dyn Hooks>) {
+    HOOKS.with(|h| *h.borrow_mut() = Some(hooks));
+    STEP.with(|s| s.set(0));
+}
+
+/// Remove the hooks of the current thread.
+pub fn uninstall() {
+    HOOKS.with(|h| *h.borrow_mut() = None);
+    STEP.with(|s| s.set(0));
+}
+
+fn hooks() -> Option<Rc<dyn Hooks>> {
+    HOOKS.with(|h| h.borrow().clone())
+}
+
+pub(crate) fn active() -> bool {
+    HOOKS.with(|h| h.borrow().is_some())
+}
+
+pub(crate) fn point(point: Point) {
+    if let Some(h) = hooks() {
+        h.point(point);
+    }
+}
+
+pub(crate) fn accept_fault() -> Option<io::Error> {
+    hooks().and_then(|h| h.accept_fault())
+}
+
+pub(crate) fn adopt_accept(accept: SteppedAccept) {
+    hooks()
+        .expect("verif hooks not installed")
+        .adopt_accept(accept);
+}
+
+pub(crate) fn adopt_worker(idx: usize, worker: WorkerFuture) {
+    hooks()
+        .expect("verif hooks not installed")
+        .adopt_worker(idx, worker);
+}
+
+pub(crate) fn before_accept_join() {
+    if let Some(h) = hooks() {
+        h.before_accept_join();
+    }
+}
+
+// Stepping latch for `Accept::poll_with`: 0 = no step active (never interrupt the loop),
+// 1 = a step was requested (let the first pass through the loop top), 2 = inside the one
+// iteration (the next arrival at the loop top returns), 3 = the loop was cut at the loop top.
+// A loop that returns by itself during the step (it processed `Stop`) leaves the latch at 2.
+
+pub(crate) fn begin_step() {
+    STEP.with(|s| s.set(1));
+}
+
+/// Returns whether the accept loop is still alive after the step (it was cut at the loop top
+/// rather than returning by itself).
+pub(crate) fn end_step() -> bool {
+    STEP.with(|s| {
+        let v = s.get();
+        s.set(0);
+        v == 3
+    })
+}
+
+/// Called at the top of the `poll_with` loop; `true` means "one iteration done, return now".
+pub(crate) fn step_boundary() -> bool {
+    STEP.with(|s| match s.get() {
+        1 => {
+            s.set(2);
+            false
+        }
+        2 => {
+            s.set(3);
+            true
+        }
+        _ => false,
+    })
+}
+
+/// The accept loop's availability bit set, exposed for differential checks against a model.
+#[derive(Debug, Default)]
+pub struct AvailabilityProbe(crate::availability::Availability);
+
+impl AvailabilityProbe {
+    pub fn available(&self) -> bool {
+        self.0.available()
+    }
+
+    pub fn get_available(&self, idx: usize) -> bool {
+        self.0.get_available(idx)
+    }
+
+    pub fn set_available(&mut self, idx: usize, avail: bool) {
+        self.0.set_available(idx, avail)
+    }
+}
